@@ -21,6 +21,7 @@ import Sgz.Model.Derived
 import Sgz.Model.Xarray
 import Sgz.Model.SegyRaw
 import Sgz.Model.WriteOrder
+import Sgz.Model.Lru
 /-!
 Line-protocol driver over the executable model (`Sgz/Model`, Mathlib-free).  One request per line, one answer per
 line.  The Python harness sends the same request to the real implementation and diffs canonical answers.
@@ -592,6 +593,20 @@ def handleHHist (line : String) : String :=
     | _ => "bad-op"
   | _ => "bad-op"
 
+/-- `lru CAP N0 N1 B0 B1 cd|ad C LO HI`: the chunks (`ref_il:ref_xl`) fetched, in order, when traces `LO ≤ d < HI` of a
+diagonal are read through a chunk LRU of capacity `CAP` (0 = the reader's default, `get_chunk_cache_size`) -/
+def handleLru (args : List String) : String :=
+  match args with
+  | [cap, n0, n1, b0, b1, kind, c, lo, hi] =>
+    match [cap, n0, n1, b0, b1, lo, hi].mapM String.toNat?, c.toInt? with
+    | some [cap, n0, n1, b0, b1, lo, hi], some c =>
+      let g : Geo := { n0 := n0, n1 := n1, n2 := 4, b0 := b0, b1 := b1, b2 := 4, u := 8 }
+      let cap := if cap == 0 then Lru.chunkCacheSize g.NB0 g.NB1 else cap
+      let keys := if kind == "cd" then Lru.cdKeys g c lo hi else Lru.adKeys g c.toNat lo hi
+      s!"{cap} " ++ ",".intercalate ((Lru.fetched cap [] keys).map fun (a, b) => s!"{a}:{b}")
+    | _, _ => "bad-op"
+  | _ => "bad-op"
+
 def handle (line : String) : String :=
   if line.startsWith "hist " then handleHist (line.drop 5).toString else
   if line.startsWith "hhist " then handleHHist (line.drop 6).toString else
@@ -618,6 +633,7 @@ def handle (line : String) : String :=
   | "header" :: rest => handleHeader rest
   | "hdrio" :: rest => handleHdrIO rest
   | "hashfeed" :: rest => handleHashFeed rest
+  | "lru" :: rest => handleLru rest
   | ["ping"] => "pong"
   | _ => "bad-op"
 
